@@ -190,10 +190,11 @@ func referenced(f *ir.File, roots []string) map[string]bool {
 func init() {
 	Defs["C12"] = &Def{
 		Draw: func(t *rapid.T, r *Recorder) *Replay {
-			v := genLevelVariant(t, r, nil)
+			many := rapid.Bool().Draw(t, "manytypes")
+			v := genLevelVariant(t, r, func(o *gen.Opts, k *gen.KOpts) { k.ManyTypes = many })
 			rp := &Replay{Variants: []*pipeline.Variant{v}}
 			var c c12Case
-			// A: non-empty subset of B = v.Cfg.Types
+			// A: non-empty subset of B = v.Cfg.Types (a proper one when B has several types, two cases in three)
 			for _, n := range v.Cfg.Types {
 				if rapid.Bool().Draw(t, "inA") {
 					c.TypesA = append(c.TypesA, n)
@@ -201,6 +202,10 @@ func init() {
 			}
 			if len(c.TypesA) == 0 {
 				c.TypesA = []string{rapid.SampledFrom(v.Cfg.Types).Draw(t, "a1")}
+			}
+			if len(c.TypesA) == len(v.Cfg.Types) && len(c.TypesA) > 1 && rapid.IntRange(0, 2).Draw(t, "proper") != 0 {
+				i := rapid.IntRange(0, len(c.TypesA)-1).Draw(t, "dropA")
+				c.TypesA = append(append([]string{}, c.TypesA[:i]...), c.TypesA[i+1:]...)
 			}
 			// extra messages in f and extra unrelated files, with fresh names
 			used := map[string]bool{}
